@@ -145,7 +145,12 @@ pub fn run_churn(w: &mut dyn WorldApi, g: &mut Gen, ev: &mut Ev, cycles: u64, wi
         let k = 2 + g.rng.below(20);
         let mut batch: Vec<EP> = (0..k).map(|_| *g.rng.pick(&ws)).collect();
         for p in &batch {
-            w.apply(slot, &Op::Insert(g.host(*p), c));
+            // alternate the two insertion paths (PrefixMap::insert and the entry API)
+            if c % 2 == 0 {
+                w.apply(slot, &Op::Insert(g.host(*p), c));
+            } else {
+                w.apply(slot, &Op::Entry(g.host(*p), vec![EAct::OrInsert(c, None)]));
+            }
             ops += 1;
         }
         let reach = arena_partition(&w.arena(slot)).0;
